@@ -45,6 +45,7 @@ class EFLRSetsDict(defaultdict):
             if not set_dict[eflr_set.set_name].n_items:
                 # same for the position of an empty set among the sets of its type
                 set_dict[eflr_set.set_name] = set_dict.pop(eflr_set.set_name)
+            eflr_set._sets_of_logical_file = set_dict
             return False
         else:
             if eflr_set.n_items:
@@ -52,6 +53,7 @@ class EFLRSetsDict(defaultdict):
                 raise RuntimeError(f"{eflr_set} already holds objects of another logical file; "
                                    f"please specify a different 'set_name' for the objects of each logical file")
             self[eflr_set.__class__][eflr_set.set_name] = eflr_set
+            eflr_set._sets_of_logical_file = set_dict
             return True
 
     def get_or_make_set(self, eflr_set_type: type[AnyEFLRSet], set_name: Optional[str] = None) -> AnyEFLRSet:
